@@ -168,6 +168,24 @@ def run_shard(shard, out_base):
             branch = comp_value(rng, cls["branch_code"], wd["branch_code"], 0, kr)
             judge_generate(mon, S, cc, bank, acct, branch, table)
             judge_components(mon, S, cc, bank, acct, branch, table)
+        # sequences of from_components calls with different keyword subsets: what an earlier call supplied
+        # must never show up in a later one (omitted components are empty)
+        if pos:
+            for _ in range(6 if shard["tier"] == "quick" else 120):
+                full = {k: comp_value(rng, cls[k], wd[k], 0, "exact") for k in ("bank_code", "branch_code", "account_code") if wd[k]}
+                observe(S.BBAN.from_components, cc, **full)
+                keys = [k for k in full if rng.random() < 0.6]
+                part = {k: comp_value(rng, cls[k], wd[k], 0, rng.choice(["exact", "short"])) for k in keys}
+                exp = RG.expect_generate(cc, part.get("bank_code", ""), part.get("account_code", ""), part.get("branch_code", ""), table)
+                o = observe(S.BBAN.from_components, cc, **part)
+                mon.ev()
+                mon.distinct((cc, "seq", tuple(sorted(part.items()))))
+                w = {"country": cc, "first_call": full, "second_call": part}
+                if not o.ok and not judge.is_lib_exc(o.exc):
+                    mon.viol(f"escape:from_components:{o.exc_name}", w, "library error", o.brief())
+                elif exp.kind == "return" and (not o.ok or str(o.value) != exp.iban[4:]):
+                    mon.viol("from_components_result_depends_on_earlier_call", w, exp.iban[4:], o.brief())
+                mon.tally("keyword_subset_sequences")
         mon.tally("countries")
         mon.sample({"country": cc, "bank_code": bank, "account_code": acct, "branch_code": branch})
     return mon.result(out_base)
